@@ -42,6 +42,11 @@ func (f *fakeRetriever) Retrieve(ctx context.Context, r *retriever.Resource) ([]
 	key := r.Repo + "/" + r.Filepath
 	verifrt.Yield("read", key)
 	f.reads[key]++
+	if r.Repo != remoteRepo {
+		// a file of ANOTHER repository: the version it is requested at is part of the observation (it must be the
+		// one its import statement names - none - whatever the version of the importing file)
+		f.reads[key+"@"+r.Ref.Name()]++
+	}
 	c, ok := f.files[key]
 	if !ok {
 		return nil, fmt.Errorf("no such remote file %s", key)
@@ -65,7 +70,8 @@ func remoteFiles(rc remoteCase) (local map[string]string, remote map[string]stri
 	x := "//" + remoteRepo + "/x"
 	local = map[string]string{}
 	remote = map[string]string{
-		remoteRepo + "/x.sysl":     "import y\nimport /sub/z\nRX:\n    ...\nS:\n    EX:\n        ...\n",
+		"github.com/o/other/w.sysl": "RW:\n    ...\nS:\n    EW:\n        ...\n",
+		remoteRepo + "/x.sysl":     "import y\nimport /sub/z\nimport //github.com/o/other/w\nRX:\n    ...\nS:\n    EX:\n        ...\n",
 		remoteRepo + "/y.sysl":     "import /x\nRY:\n    ...\nS:\n    EY:\n        ...\n",
 		remoteRepo + "/sub/z.sysl": "import ../y\nRZ:\n    ...\nS:\n    EZ:\n        ...\n",
 	}
@@ -221,7 +227,10 @@ func runRemote(c core.Case) core.Outcome {
 	if strings.Contains(got, "err=other") || strings.Contains(got, "err=different") {
 		return fail("unexpected-error", got)
 	}
-	wantApps := map[string]string{"one": "[FA RX RY RZ S]", "two": "[FA FB RX RY RZ S]", "two-rev": "[FA FB RX RY RZ S]"}[rc.Shape]
+	wantApps := map[string]string{"one": "[FA RW RX RY RZ S]", "two": "[FA FB RW RX RY RZ S]", "two-rev": "[FA FB RW RX RY RZ S]"}[rc.Shape]
+	if !strings.Contains(got, "github.com/o/other/w.sysl@HEAD:1") && !strings.Contains(got, "github.com/o/other/w.sysl@:1") && !strings.Contains(got, "github.com/o/other/w.sysl@main:1") {
+		return fail("other-repo-version", fmt.Sprintf("the unversioned import of another repository's file inside the remote file was not requested at its default version: %s", got))
+	}
 	if !strings.Contains(got, "apps="+wantApps) {
 		return fail("wrong-closure", fmt.Sprintf("result %s, expected applications %s", got, wantApps))
 	}
@@ -229,9 +238,9 @@ func runRemote(c core.Case) core.Outcome {
 		return fail("file-read-twice", got)
 	}
 	wantOrder := map[string]string{
-		"one":     "[a.sysl x.sysl y.sysl sub/z.sysl]",
-		"two":     "[a.sysl x.sysl y.sysl sub/z.sysl b.sysl]",
-		"two-rev": "[a.sysl b.sysl y.sysl x.sysl sub/z.sysl]",
+		"one":     "[a.sysl x.sysl y.sysl sub/z.sysl //github.com/o/other/w.sysl]",
+		"two":     "[a.sysl x.sysl y.sysl sub/z.sysl //github.com/o/other/w.sysl b.sysl]",
+		"two-rev": "[a.sysl b.sysl y.sysl x.sysl sub/z.sysl //github.com/o/other/w.sysl]",
 	}[rc.Shape]
 	if !strings.Contains(got, "order="+wantOrder) {
 		return fail("merge-order", fmt.Sprintf("result %s, expected merge order %s", got, wantOrder))
